@@ -586,7 +586,8 @@ def _chain_layout(t, leaf_layouts):
     from ..symb import _newaxis_position
     k = _newaxis_position(t.args[1])          # x[:, :, None] / x[None]: a unit axis inserted at position k
     if k is not None:
-      return L.expand_dims(_chain_layout(t.args[0], leaf_layouts), k)
+      base_ = _chain_layout(t.args[0], leaf_layouts)
+      return L.expand_dims(base_, k if k >= 0 else len(base_) + 1 + k)
   raise L.LayoutError(f'unrecognised shape op: {show(t, maxdepth=3)[:100]}')
 
 
